@@ -191,7 +191,8 @@ def enumerate_cases(tier):
     them): the history harness of C09, judged here for clobbering only"""
     from . import c09
     for case in c09.enumerate_cases(tier):
-        yield {"many_hash_variables": case}
+        if case.get("hv_pad"):
+            yield {"many_hash_variables": case}
 
 
 def fsz(fmt):
